@@ -78,7 +78,7 @@ def install_kernel_contract():
 
 
 # ---------------------------------------------------------------- class invariant
-def check_invariant(I, rng, where):
+def check_invariant(I, rng, where, strict=True):
     bump('invariant_evaluations')
     n = len(I.trajectory)
     if not (len(I.lla) == len(I.velocity_n) == len(I.mat_nb)):
@@ -86,8 +86,8 @@ def check_invariant(I, rng, where):
     if len(I.lla) < n:
         return vio('invariant_capacity', f'{where}: capacity {len(I.lla)} < rows {n}')
     idx = np.asarray(I.trajectory.index, float)
-    if n > 1 and not (np.diff(idx) > 0).all():
-        return vio('invariant_index', f'{where}: trajectory index not strictly increasing')
+    if n > 1 and not ((np.diff(idx) > 0).all() if strict else (np.diff(idx) >= 0).all()):
+        return vio('invariant_index', f'{where}: trajectory index not {"strictly " if strict else ""}increasing')
     if list(I.trajectory.columns) != TRAJ:
         return vio('invariant_columns', f'{where}: columns {list(I.trajectory.columns)}')
     rows = {n - 1, int(rng.integers(0, n))}
@@ -117,8 +117,15 @@ def random_pva(rng, t0, vd=True, two_d=False):
     return pd.Series([lat, lon, alt, *v, *rph], index=TRAJ, name=float(t0))
 
 
-def random_increments(rng, n, t0, big_vertical=False):
+def random_increments(rng, n, t0, big_vertical=False, repeats=False):
     dt = rng.uniform(0.002, 0.05, n) if rng.random() < 0.5 else np.full(n, rng.choice([0.005, 0.01, 0.02]))
+    rep = np.zeros(n, bool)
+    if repeats:
+        # "any increments table": rows with dt = 0 carrying their own increments (a repeated stamp; the first row may repeat the start time)
+        rep = rng.random(n) < 0.06
+        rep[0] = rng.random() < 0.5
+        rep[int(rng.integers(1, n))] = True
+        dt[rep] = 0.0
     t = t0 + np.cumsum(dt)
     dt = np.diff(np.r_[t0, t])
     theta = rng.standard_normal((n, 3)) * rng.uniform(0, 1.5) * dt[:, None]
@@ -127,6 +134,9 @@ def random_increments(rng, n, t0, big_vertical=False):
         f[:, 2] += rng.uniform(-30, 30)
         theta += rng.uniform(-1, 1, 3) * dt[:, None]
     dv = f * dt[:, None]
+    if repeats:
+        theta[rep] = rng.standard_normal((int(rep.sum()), 3)) * 0.01
+        dv[rep] = rng.standard_normal((int(rep.sum()), 3)) * 0.2
     return pd.DataFrame(np.column_stack([dt, theta, dv]), index=pd.Index(t, name='time'), columns=INC)
 
 
@@ -155,7 +165,9 @@ def run_history(case, two_d_monitors=False):
     # in 2-D histories for C02 the supplied states have VD = 0 (a non-zero VD there is C13's business)
     vd_nonzero = two_d_monitors or wa
     pva0 = random_pva(rng, t0, vd=vd_nonzero, two_d=two_d_monitors)
-    inc = random_increments(rng, n_inc, t0, big_vertical=two_d_monitors)
+    repeats = bool(case.get('repeats'))
+    inc = random_increments(rng, n_inc, t0, big_vertical=two_d_monitors, repeats=repeats)
+    rep_rows = np.nonzero(inc['dt'].values == 0.0)[0] if repeats else np.array([], int)
     if rng.random() < 0.25:
         # "any increments table": columns in another order and an extra column (selection must be by label)
         cols = list(inc.columns)
@@ -166,6 +178,8 @@ def run_history(case, two_d_monitors=False):
     inc_copy = inc.copy()
     I = Sub(pva0, wa)
     fail(check_invariant(I, rng, 'constructor'))
+    if repeats:
+        bump('histories_with_repeated_stamps')
     alt_ref = float(pva0.alt)
     last_state = I.trajectory.iloc[-1].copy()        # most recently supplied state (as the object reports it)
     last_state.name = t0
@@ -213,6 +227,10 @@ def run_history(case, two_d_monitors=False):
                 if case.get('long'):
                     choices = [int(rng.integers(1, 1500)), 1000, 999, 1001, 700, int(rng.integers(1, 40)), room, room + 1]
                 k = int(min(max(choices[int(rng.integers(0, len(choices)))], 0), n_inc - pos))
+                nxt = rep_rows[rep_rows > pos]
+                if len(nxt) and rng.random() < 0.5:
+                    k = int(nxt[0] - pos)             # the chunk ends right before a row that repeats the then-current time
+                    bump('chunks_ending_before_repeated_stamp')
                 chunk = inc.iloc[pos:pos + k]
                 ops.append(('integrate', k))
                 prev_last = I.trajectory.iloc[-1].copy()
@@ -330,7 +348,7 @@ def run_history(case, two_d_monitors=False):
             import traceback
             fail(vio('exception', f'{type(e).__name__}: {e} after {ops[-6:]}', tb=traceback.format_exc()[-1000:]))
             break
-        fail(check_invariant(I, rng, f'{ops[-1][0]}#{len(ops)}'))
+        fail(check_invariant(I, rng, f'{ops[-1][0]}#{len(ops)}', strict=not repeats))
         if out:
             break
     out.extend(PENDING)
@@ -365,3 +383,42 @@ def euler_batch_probe():
             if not same_bits(transform.mat_to_rph(M[s:s + k]), full[s:s + k]):
                 return False
     return True
+
+
+def run_huge(case):
+    """One integrate call far larger than any growth step of the buffers (default capacity), against the same increments in a few
+    chunks; the kernel-boundary contract turns an undersized resize into a report instead of a wild write."""
+    from pyins import strapdown
+    rng = np.random.Generator(np.random.PCG64(case['seed']))
+    n = int(case['n_inc'])
+    wa = bool(case['with_altitude'])
+    out = []
+    PENDING.clear()
+    pva0 = random_pva(rng, 0.0)
+    dt = np.full(n, 0.01)
+    t = np.cumsum(dt)
+    theta = rng.standard_normal((n, 3)) * 1e-3
+    dv = (rng.standard_normal((n, 3)) * 0.5 + np.array([0, 0, -9.8])) * 0.01
+    inc = pd.DataFrame(np.column_stack([dt, theta, dv]), index=pd.Index(t, name='time'), columns=INC)
+    try:
+        A = strapdown.Integrator(pva0, wa)
+        A.integrate(inc)
+        bump('huge_single_calls')
+        OBS['max_single_call_rows'] = max(OBS.get('max_single_call_rows', 0), n)
+        B = strapdown.Integrator(pva0, wa)
+        cuts = np.sort(rng.integers(1, n, size=int(rng.integers(3, 7))))
+        for a, b in zip(np.r_[0, cuts], np.r_[cuts, n]):
+            B.integrate(inc.iloc[a:b])
+        v = check_invariant(A, rng, 'huge single call')
+        if v is not None:
+            out.append(v)
+        if not same_table(A.trajectory, B.trajectory):
+            out.append(vio('history_dependence', f'one integrate call of {n} rows differs bitwise from the same rows in chunks cut at {cuts.tolist()}'))
+        if len(A.trajectory) != n + 1:
+            out.append(vio('time_index', f'{len(A.trajectory)} rows after one call of {n} increments'))
+    except KernelContractViolation:
+        pass
+    except Exception as e:
+        out.append(vio('exception', f'{type(e).__name__}: {e}'))
+    out.extend(PENDING)
+    return out, dict(ops=2, n_inc=n, with_altitude=wa)
